@@ -344,7 +344,13 @@ def run(ctx):
         real += 1
         if st_ != code or out != b'hi\r\n':
             ctx.fail('C12:exit-status', {'real_child_exit_code': code}, detail={'got': [repr(out), st_]})
-    ctx.note('%d real children: run(..., withexitstatus=True) returns the true exit code' % real)
+    for signame in ('TERM', 'KILL', 'INT'):
+        v = real_child_killed(signame)
+        real += 1
+        if v is not None:
+            ctx.fail('C12:exit-status', {'real_child_killed_by': signame}, detail=v, signature={'killed_by': signame})
+    ctx.note('%d real children: run(..., withexitstatus=True) returns the true exit code (a child ended by a signal has none: no number is '
+             'invented for it)' % real)
     # binding self-test
     cands = [t for t in uniq if verdicts[t['id']][0] == 'ok' and any(e['e'] == 'send' for e in t['ev'])]
     if common.selftest_possible(ctx, cands, 'a response sent'):
@@ -372,8 +378,24 @@ def run(ctx):
     return status
 
 
+def real_child_killed(signame):
+    """the child prints and is then ended by a signal: it has no exit code, and run() must not hand back a number the child
+    never exited with"""
+    out, st_ = pexpect.run('/bin/sh -c "echo hi; kill -%s $$; sleep 5"' % signame, withexitstatus=True, timeout=20)
+    if st_ is not None or out != b'hi\r\n':
+        return {'got': [repr(out), st_], 'want': [repr(b'hi\r\n'), None]}
+    return None
+
+
 def replay(ctx):
     d = json.load(open(ctx.replay))
+    if 'real_child_killed_by' in d['case']:
+        v = real_child_killed(d['case']['real_child_killed_by'])
+        print(v)
+        if v is not None:
+            print('VIOLATION property=C12 replay=%s' % ctx.replay)
+            return 1
+        return 0
     m = d['case'].get('meta')
     if not m:
         print(d)
